@@ -256,7 +256,8 @@ func replayConnCase(kr *keyring, c *connCase, parked bool) (diff string) {
 				select {
 				case r := <-pending:
 					n, err = r.n, r.err
-				case <-time.After(5 * time.Second):
+				case <-time.After(watchdogLimit()):
+					noteHang()
 					return fmt.Sprintf("step %d read %s: the parked Read did not return after the record arrived", i+1, sym)
 				}
 				pending = nil
